@@ -498,7 +498,8 @@ def rules(ctx):
     from ..engine import only
     from . import c01
     from . import c09
-    out = [r14_1, r14_2, r14_3, r14_4, r14_5, r14_6, c12.r12_1, c09.r09_5,
+    from . import c20
+    out = [r14_1, r14_2, r14_3, r14_4, r14_5, r14_6, c12.r12_1, c09.r09_5, c20.r20_1, c20.r20_2,
            only(c01.r01_1, lambda k: k.startswith("component predicate") or "custom" in k.lower(), "customElementPatterns is matched against the whole tag name of plain / namespaced tags only")]
     if ctx.tier == "thorough":
         out.append(hir_mir_option_reads)
